@@ -204,7 +204,11 @@ fn value_for(rng: &mut Rng, name: &str) -> Vec<u8> {
         ":status" => rng.pick(&["200", "204", "404", "100", "999", "103"]).as_bytes().to_vec(),
         ":scheme" => rng.pick(&["http", "https"]).as_bytes().to_vec(),
         ":path" => rng.pick(&["/", "/index.html", "/a/b?c=d", "*", ""]).as_bytes().to_vec(),
-        ":authority" | ":protocol" => rng.pick(&["a", "example.com", "www.example.org:8080", "websocket", "h\u{e9}llo", ""]).as_bytes().to_vec(),
+        // (spellings that differ in letter case only are different values: what is indexed is the octets)
+        ":authority" | ":protocol" => rng
+            .pick(&["a", "A", "example.com", "Example.COM", "EXAMPLE.com", "www.example.org:8080", "WWW.example.org:8080", "websocket", "WebSocket", "h\u{e9}llo", ""])
+            .as_bytes()
+            .to_vec(),
         _ => match rng.below(6) {
             0 => vec![],
             1 => b"gzip, deflate".to_vec(),
